@@ -15,6 +15,7 @@ cache without searching.
 """
 
 import builtins
+import contextlib
 import io
 import os
 import pickle
@@ -45,17 +46,22 @@ OTHER = (("ab", "bc", "ca"), "", {"a": 2, "b": 2, "c": 2})
 
 
 def bounds(tier):
-    return dict(optimizers=["ReusableRandomGreedyOptimizer", "ReusableHyperOptimizer(methods=['greedy'], optlib='random')"], cases=["new entry", "overwrite=True of an existing entry", "overwrite='improved' of an existing entry"],
-                directory_split=[True, False], crash_points="before every recorded event; every byte offset of every write", hash_method=["a"] if tier == "quick" else ["a", "b"])
+    return dict(optimizers=["ReusableRandomGreedyOptimizer", "ReusableHyperOptimizer(methods=['greedy'], optlib='random')"],
+                cases=["new entry", "overwrite=True of an existing entry", "overwrite='improved' of an existing entry", "fresh: the cache directory does not exist yet (creation of the directory and of the optimizer object are inside the traced segment)"],
+                directory_split=[True, False], crash_points="before every recorded event; every byte offset of every write", hash_method=["a"] if tier == "quick" else ["a", "b"],
+                double_crash=("not explored" if tier == "quick" else "crash -> a second writer process (same or different pid, solver-chosen) that crashes as well at any event / byte offset -> later process; "
+                              "the FIRST crash is one representative per structural class of post-crash directories (file set x {empty, partial(1 byte), partial(all but 1 byte), complete} per file)"))
 
 
 def items(tier, seed):
     its = []
     for optname in ("rgreedy", "hyper"):
-        for case in ("new", "overwrite", "improved"):
+        for case in ("new", "overwrite", "improved", "fresh"):
             for split in (True, False):
                 for hm in (("a",) if tier == "quick" else ("a", "b")):
                     its.append({"opt": optname, "case": case, "split": split, "hash": hm, "tier": tier})
+                if tier == "thorough":
+                    its.append({"opt": optname, "case": case, "split": split, "hash": "a", "tier": tier, "double": True})
     return its
 
 
@@ -225,7 +231,8 @@ def apply_events(state, events, c, k):
 
 
 def materialise(st, root):
-    os.makedirs(root, exist_ok=True)
+    if st:
+        os.makedirs(root, exist_ok=True)
     for p, v in sorted(st.items(), key=lambda kv: (kv[1] is not None, kv[0])):
         full = os.path.join(root, p)
         if v is None:
@@ -236,35 +243,77 @@ def materialise(st, root):
                 f.write(v)
 
 
-def prepare(item, workdir):
-    """run the pre-history and the traced writer; returns (pre_state, events, stored_entry_bytes, key info)"""
+def prehistory(item, d):
+    """what earlier, uncrashed processes left in the directory"""
     warnings.simplefilter("ignore")
-    d = os.path.join(workdir, "cache")
+    if item["case"] == "fresh":
+        return
     kw = dict(directory_split=item["split"], hash_method=item["hash"])
     opt = make_opt(item["opt"], d, **kw)
     opt.search(*OTHER)  # an entry stored before the crash
     if item["case"] in ("overwrite", "improved"):
         opt.search(*QUERY)
-    pre = snapshot(d)
-    wkw = dict(kw)
+
+
+def traced_writer(item, d, tr):
+    """the process that will crash: everything it does to the directory is traced"""
+    kw = dict(directory_split=item["split"], hash_method=item["hash"])
     if item["case"] == "overwrite":
-        wkw["overwrite"] = True
+        kw["overwrite"] = True
     elif item["case"] == "improved":
-        wkw["overwrite"] = "improved"
-    writer = make_opt(item["opt"], d, **wkw)
+        kw["overwrite"] = "improved"
+    if item["case"] == "fresh":
+        with tr:
+            writer = make_opt(item["opt"], d, **kw)
+            writer.search(*QUERY)
+        return
+    writer = make_opt(item["opt"], d, **kw)
     if item["case"] == "improved":
         # make sure the new result counts as an improvement so that the store happens
-        h, _ = writer.hash_query(*QUERY)
-        old = dict(writer._cache[h])
-        old["score"] = old["score"] + 10.0
-        writer._cache._mem_cache[h] = old
-    with Tracer(d) as tr:
+        h, missing = writer.hash_query(*QUERY)
+        if not missing:
+            old = dict(writer._cache[h])
+            old["score"] = old["score"] + 10.0
+            writer._cache._mem_cache[h] = old
+    with tr:
         writer.search(*QUERY)
+
+
+def prepare(item, workdir):
+    """run the pre-history and the traced writer; returns (dir, pre_state, events, post_state)"""
+    d = os.path.join(workdir, "cache")
+    prehistory(item, d)
+    pre = snapshot(d) if os.path.isdir(d) else {}
+    tr = Tracer(d)
+    traced_writer(item, d, tr)
     post = snapshot(d)
     return d, pre, tr.events, post
 
 
-def reader_check(item, root):
+@contextlib.contextmanager
+def as_pid(shift):
+    """run as 'another process': os.getpid() answers differently (temporary file names depend on it)"""
+    if not shift:
+        yield
+        return
+    real = os.getpid
+
+    def getpid():
+        return real() + shift
+
+    os.getpid = getpid
+    try:
+        yield
+    finally:
+        os.getpid = real
+
+
+def reader_check(item, root, pid_shift=0):
+    with as_pid(pid_shift):
+        return _reader_check(item, root)
+
+
+def _reader_check(item, root):
     """a later process: fresh optimizer object on the directory. returns (ok, detail)"""
     import cotengra.utils as U
 
@@ -285,6 +334,8 @@ def reader_check(item, root):
         return False, f"cache entry is not a complete record: {con!r}"[:200]
     if tuple(map(tuple, tree.get_path())) != tuple(map(tuple, con["path"])):
         return False, "returned tree does not follow the stored path"
+    if item["case"] == "fresh":
+        return True, "searched" if searched else "cache"
     # the entry stored before the crash
     try:
         opt2 = make_opt(item["opt"], root, **kw)
@@ -298,8 +349,38 @@ def reader_check(item, root):
     return True, "searched" if searched else "cache"
 
 
+def struct_class(st, post):
+    """structural class of a post-crash directory: which names exist and, per file, empty / partial / complete"""
+    out = []
+    for p_, v in sorted(st.items()):
+        if v is None:
+            out.append((p_, "dir"))
+        else:
+            full = [w for w in post.values() if w is not None and len(w) >= len(v) and w[: len(v)] == v]
+            kind = "empty" if len(v) == 0 else ("complete" if any(len(w) == len(v) for w in full) or not full else ("p1" if len(v) == 1 else "partial"))
+            out.append((p_, kind))
+    return tuple(out)
+
+
+def first_crash_representatives(pre, events, post):
+    """one (c, k) per structural class of post-crash directories (k = 1 and k = len-1 kept apart for writes)"""
+    reps = {}
+    for c in range(len(events) + 1):
+        ks = [0]
+        if c < len(events) and events[c][0] == "write":
+            n = len(events[c][2])
+            ks = sorted({0, 1, max(n - 1, 0)})
+        for k in ks:
+            st = apply_events(pre, events, c, k) if c < len(events) else dict(post)
+            key = (struct_class(st, post), k if k <= 1 else "n-1")
+            reps.setdefault(key, (c, k))
+    return sorted(set(reps.values()))
+
+
 def run_item(item, rec):
     warnings.simplefilter("ignore")
+    if item.get("double"):
+        return run_double(item, rec)
     work = tempfile.mkdtemp(prefix="verif_c15_")
     try:
         d, pre, events, post = prepare(item, work)
@@ -326,7 +407,7 @@ def run_item(item, rec):
             ev = events[ci] if ci < nev else ("after-all",)
             fk = None
             rec.refute(ctx, not ok, "later process finds the complete entry or behaves as if absent",
-                       lambda m: dict(item=item, crash_event_index=ci, crash_event=[str(x)[:60] for x in ev[:2]], bytes_written=k, detail=detail, finding_key=fk,
+                       lambda m: dict(item=item, crashes=[[ci, k, 0]], crash_event=[str(x)[:60] for x in ev[:2]], detail=detail, finding_key=fk,
                                       signature=["C15", item["opt"], item["case"], item["split"], ev[0], detail[:60]]))
             return ci, k
 
@@ -344,27 +425,78 @@ def run_item(item, rec):
         shutil.rmtree(work, ignore_errors=True)
 
 
+def run_double(item, rec):
+    """crash -> second writer process that crashes too -> later process"""
+    work = tempfile.mkdtemp(prefix="verif_c15_")
+    try:
+        d, pre, events, post = prepare(item, work)
+        reps = first_crash_representatives(pre, events, post)
+        rec.notes["first_crash_classes"] = len(reps)
+        counter = [0]
+        outcomes = {}
+        second_traces = {}
+
+        def second_writer(ri, shift):
+            """trace the second writer on the directory left by first-crash representative ri (deterministic: cached)"""
+            if (ri, shift) not in second_traces:
+                c1, k1 = reps[ri]
+                st1 = apply_events(pre, events, c1, k1) if c1 < len(events) else dict(post)
+                root = os.path.join(work, f"w{ri}_{shift}")
+                materialise(st1, root)
+                tr = Tracer(root)
+                err = None
+                try:
+                    with as_pid(shift):
+                        traced_writer(item, root, tr)
+                except Exception as e:  # noqa
+                    err = f"{type(e).__name__}: {e}"
+                post2 = snapshot(root) if os.path.isdir(root) else {}
+                shutil.rmtree(root, ignore_errors=True)
+                second_traces[(ri, shift)] = (st1, tr.events, post2, err)
+            return second_traces[(ri, shift)]
+
+        def harness(ctx):
+            ri = symx.choose("first_crash_class", len(reps))
+            shift = symx.choose("second_writer_other_pid", 2)
+            c1, k1 = reps[ri]
+            st1, ev2, post2, err = second_writer(ri, shift)
+            if err is not None:
+                rec.refute(ctx, True, "second writer behaves as if the entry were absent (searches and stores)",
+                           lambda m: dict(item=item, crashes=[[c1, k1, 0]], detail="second writer raised " + err, signature=["C15", "double", item["opt"], item["case"], "writer2", err[:40]]))
+                return
+            n2 = len(ev2)
+            w2 = {i: len(e[2]) for i, e in enumerate(ev2) if e[0] == "write"}
+            c2 = ctx.concretize(symx.sym_int("crash2_before_event", 0, n2).e)
+            k2 = 0
+            if c2 in w2:
+                k2 = ctx.concretize(symx.sym_int("bytes_written2", 0, w2[c2]).e)
+            st2 = apply_events(st1, ev2, c2, k2) if c2 < n2 else dict(post2)
+            counter[0] += 1
+            root = os.path.join(work, f"r{counter[0]}")
+            materialise(st2, root)
+            ok, detail = reader_check(item, root, pid_shift=2)
+            shutil.rmtree(root, ignore_errors=True)
+            outcomes[detail if ok else "FAIL"] = outcomes.get(detail if ok else "FAIL", 0) + 1
+            rec.refute(ctx, not ok, "after two crashed writers the later process finds the complete entry or behaves as if absent",
+                       lambda m: dict(item=item, crashes=[[c1, k1, 0], [c2, k2, shift]], detail=detail, signature=["C15", "double", item["opt"], item["case"], item["split"], detail[:60]]))
+            return ri, c2, k2
+
+        out = symx.explore(harness, max_paths=20000, max_enum=4096, deadline_s=900)
+        rec.add_explore(out)
+        rec.sample(dict(item={k: v for k, v in item.items() if k != "tier"}, first_crash_representatives=[list(r) for r in reps], paths=out.paths, outcomes=outcomes))
+        rec.validated += 1
+    finally:
+        shutil.rmtree(work, ignore_errors=True)
+
+
 _WRITER = r"""
 import sys, os, warnings
 warnings.simplefilter("ignore")
 sys.path.insert(0, __import__("os").environ["VERIF_ROOT"])
 import json
 from checks import c15
-item = json.loads(sys.argv[1]); d = sys.argv[2]; target_event = int(sys.argv[3]); k = int(sys.argv[4])
-import cotengra.utils as U
-kw = dict(directory_split=item["split"], hash_method=item["hash"])
-if item["case"] == "overwrite": kw["overwrite"] = True
-if item["case"] == "improved": kw["overwrite"] = "improved"
-writer = c15.make_opt(item["opt"], d, **kw)
-if item["case"] == "improved":
-    h, _ = writer.hash_query(*c15.QUERY)
-    old = dict(writer._cache[h]); old["score"] += 10.0
-    writer._cache._mem_cache[h] = old
-count = [0]
-class Killer(c15.Tracer):
-    pass
+item = json.loads(sys.argv[1]); d = sys.argv[2]; target_event = int(sys.argv[3]); k = int(sys.argv[4]); shift = int(sys.argv[5])
 tr = c15.Tracer(d)
-orig_append = tr.events.append
 class L(list):
     def append(self, ev):
         idx = len(self)
@@ -380,8 +512,8 @@ def _emit(self):
         self.f.write(self.buf[:k]); self.f.flush(); os._exit(17)
     return orig_emit(self)
 c15.TracedFile._emit = _emit
-with tr:
-    writer.search(*c15.QUERY)
+with c15.as_pid(shift):
+    c15.traced_writer(item, d, tr)
 os._exit(0 if target_event >= len(tr.events) else 3)
 """
 
@@ -397,28 +529,33 @@ print(json.dumps([ok, detail]))
 
 
 def replay(v):
-    """real writer process killed with os._exit at the crash point, then a real reader process"""
+    """real writer process(es) killed with os._exit at the crash point(s), then a real reader process"""
     import json
 
     item = v["item"]
     work = tempfile.mkdtemp(prefix="verif_c15_replay_")
     try:
         d = os.path.join(work, "cache")
-        kw = dict(directory_split=item["split"], hash_method=item["hash"])
-        opt = make_opt(item["opt"], d, **kw)
-        opt.search(*OTHER)
-        if item["case"] in ("overwrite", "improved"):
-            opt.search(*QUERY)
-        env = dict(os.environ, PYTHONPATH=VERIF_ROOT, VERIF_ROOT=VERIF_ROOT)
-        p = subprocess.run([sys.executable, "-W", "ignore", "-c", _WRITER, json.dumps(item), d, str(v["crash_event_index"]), str(v["bytes_written"])], capture_output=True, text=True, env=env, timeout=300)
-        if p.returncode not in (17, 0):
-            return False, f"writer process did not reach the crash point (exit {p.returncode}): {p.stderr[-300:]}"
+        prehistory(item, d)
+        env = dict(os.environ, PYTHONPATH=os.pathsep.join([VERIF_ROOT] + [x for x in os.environ.get("PYTHONPATH", "").split(os.pathsep) if x]), VERIF_ROOT=VERIF_ROOT)
+        for c, k, shift in v["crashes"]:
+            p = subprocess.run([sys.executable, "-W", "ignore", "-c", _WRITER, json.dumps(item), d, str(c), str(k), str(shift)], capture_output=True, text=True, env=env, timeout=300)
+            if p.returncode not in (17, 0):
+                if "double" in item and "second writer raised" in v.get("detail", ""):
+                    return True, f"after a writer killed at {v['crashes'][0][:2]}, the next writer process fails: {p.stderr.strip().splitlines()[-1][:200] if p.stderr.strip() else p.returncode}"
+                return False, f"writer process did not reach the crash point (exit {p.returncode}): {p.stderr[-300:]}"
+        if "second writer raised" in v.get("detail", ""):
+            # the failing process is an uncrashed second writer
+            p = subprocess.run([sys.executable, "-W", "ignore", "-c", _WRITER, json.dumps(item), d, "1000000", "0", "0"], capture_output=True, text=True, env=env, timeout=300)
+            if p.returncode != 0:
+                return True, f"after a writer killed at {v['crashes'][0][:2]}, the next writer process fails: {(p.stderr.strip().splitlines() or [p.returncode])[-1]}"[:300]
+            return False, "second writer runs fine"
         r = subprocess.run([sys.executable, "-W", "ignore", "-c", _READER, json.dumps(item), d], capture_output=True, text=True, env=env, timeout=300)
         if r.returncode != 0:
             return True, f"reader process crashed: {r.stderr[-300:]}"
         ok, detail = json.loads(r.stdout.strip().splitlines()[-1])
         if not ok:
-            return True, f"writer killed before event {v['crash_event_index']} ({v['crash_event']}) after {v['bytes_written']} bytes; later process: {detail}"
+            return True, f"writer(s) killed at (event, bytes, pid-shift) {v['crashes']}; later process: {detail}"
         return False, f"later process behaves correctly ({detail})"
     finally:
         shutil.rmtree(work, ignore_errors=True)
